@@ -36,7 +36,7 @@ theorem C15_as_is_getter (base : Nat) (h : History) (hn : ∀ x ∈ h, x.admits 
     (hc : ((World.init base).run h).cfgs[i]? = some c) (hp : ((World.init base).run h).pools[i]? = some p)
     (hsz : c.size0 = .fin n) :
     ∃ v, p.poolSize = .fin v ∧ v + heldL p.tasks + grantsL p.sem.waiters = n := by
-  have hg := (World.reachable goodC_invariant base h hn).inv i c p hc hp n hsz
+  have hg := goodFin base h hn i c p n hc hp hsz
   exact hg.slot
 
 /-! ### refutations (closed terms; the same histories are the witnesses in `known_findings.json`) -/
